@@ -103,10 +103,11 @@ PROPS = {
     "C10": {
         "title": "Emission and distribution can never halt the chain",
         "model": "Minter.v mint_rec / begin_block; MinterWalk.v run_blocks; Distributor.v start_distribution, payout_all, dist_begin_block; Genesis.v import",
-        "runs": [app(120, 5000), minter(100, 4000), distr("", 200, 8000), distr("faults", 80, 3000)],
+        "runs": [app(120, 5000), minter(100, 4000), distr("", 200, 8000), distr("faults", 80, 3000),
+                 {"kind": "params", "profile": "", "n_quick": 200, "n_thorough": 8000, "per_shard": 20}],
         "preds": ["C10."],
         "rule": APP_RULE + " | " + MINTER_RULE + " | " + DISTR_RULE + "; every BeginBlock / EndBlock runs under recover(); the application-mode histories include genesis export/import with further blocks on the restored application",
-        "partial": ["parameter-update sequences in application mode are exercised by C13's generator at keeper level; Int / Dec overflow panics of the SDK (amounts beyond 2^256) are outside the model and excluded by the property's magnitude bound"],
+        "partial": ["parameter-update sequences are exercised at message-server level (C13's generator, followed by three blocks of both begin-blockers under recover()), not through ABCI; Int / Dec overflow panics of the SDK (amounts beyond 2^256) are outside the model and excluded by the property's magnitude bound"],
         "level_text": "Coq theorems: for every validated schedule every strictly increasing sequence of block times is processed without error or "
                       "panic from the genesis state and from every state BeginBlock produces (induction over periods and blocks); Mint errs only if "
                       "a period of the hand-over chain is missing, which UpdateParams refuses to create; one StartDistributionProcess with validated "
